@@ -121,6 +121,36 @@ class _LazyGen(Abstract):
         return next(self._it)
 
 
+class _OpGetter(Abstract):
+    """operator.attrgetter(name...) / itemgetter(key...) / methodcaller(name, *args, **kwargs) as a callable value"""
+
+    def __init__(self, kind: str, args: tuple, kwargs: dict):
+        self.kind, self.args, self.kwargs = kind, args, kwargs
+        self.__dict__["__name__"] = kind
+
+    def __call__(self, obj: Any) -> Any:
+        f = _CURRENT[-1]
+
+        def attr(o: Any, dotted_name: str) -> Any:
+            for part in dotted_name.split("."):
+                o = Folder({"__o": o}, f.repo, f.mod, f.cls, f.hook).fold(ast.Attribute(value=ast.Name(id="__o", ctx=ast.Load()), attr=part, ctx=ast.Load()))
+            return o
+
+        if self.kind == "attrgetter":
+            vals = [attr(obj, n) for n in self.args]
+            return vals[0] if len(vals) == 1 else tuple(vals)
+        if self.kind == "itemgetter":
+            def item(k: Any) -> Any:
+                from .absint import _Const
+
+                return Folder({"__o": obj}, f.repo, f.mod, f.cls, f.hook).fold(ast.Subscript(value=ast.Name(id="__o", ctx=ast.Load()), slice=_Const(k), ctx=ast.Load()))
+
+            vals = [item(k) for k in self.args]
+            return vals[0] if len(vals) == 1 else tuple(vals)
+        m = attr(obj, self.args[0])
+        return call_value(f, m, list(self.args[1:]), dict(self.kwargs))
+
+
 class _Eager(list):
     """the elements of a one-shot producer (an itertools object), computed eagerly: a list for whoever walks it once, and a
     single shared position for whoever pulls elements out with next() - `iter(p) is p` for these in Python"""
@@ -1507,6 +1537,8 @@ class Folder:
 
                 raise Raised(type(ex_s).__name__, e)
             return r_s
+        if name in ("operator.attrgetter", "operator.itemgetter", "operator.methodcaller", "attrgetter", "itemgetter", "methodcaller") and name.split(".")[0] not in self.env and args:
+            return _OpGetter(name.split(".")[-1], tuple(self.fold(a) for a in args), {k.arg: self.fold(k.value) for k in e.keywords if k.arg})
         if name is not None and name.startswith("operator.") and name.count(".") == 1 and "operator" not in self.env:
             import operator as _op
 
